@@ -338,15 +338,19 @@ def queries(tier):
     out = []
     sets = list(HAND)
     seed = 20260929
-    sets += gen_sets(4 if not T else 40, seed)
+    sets += gen_sets(4 if not T else 28, seed)
     for tag, rules, asc in sets:
         flavours = [0] if not T else [0, 1, 2]
+        if T and tag.startswith("gen") and int(tag[3:]) >= 10:
+            flavours = [int(tag[3:]) % 3]
         if tag in ("samepat", "anon", "int") and not T:
             flavours = [0, 1]
         for fl in flavours:
             N = 5 if not T else 6
             if not T and (tag.startswith("gen") or tag == "adjacent"):
                 N = 4
+            if T and tag.startswith("gen"):
+                N = 5
             if tag in ("lit-split", "backtrack", "root-wild", "deep") and T:
                 N = 7
             methods = [GET] if tag != "samepat" else [GET, POST, "PUT"]
